@@ -53,7 +53,7 @@ S_COMMENT = [K("k3::S-Comment-noninterp"), K("k3::S-Comment-drop"), K("k3::S-Com
 TAL_BASIC = [K("k3::S-Define"), K("k3::S-Define-clauses"), K("k3::S-Define-tuple"), K("k3::S-Condition"), K("k3::S-Content"),
              K("k3::S-Replace"), K("k3::S-Structure"), K("k3::S-OmitTag"),
              K("k3::S-OmitTag-empty"), K("k3::S-OmitTag-selfclosing"),
-             K("k3::S-Attribute"), K("k3::S-Attribute-quotes"), K("k3::S-Attribute-default-under-target"), K("k3::S-Attribute-boolean-interp"), K("k3::S-Define-nested-same"), K("k3::S-Repeat-indent"), K("k3::S-Repeat-comprehension"), K("k3::S-Attribute-dict"), K("k3::S-Attribute-dict-first"), K("k3::S-Literal"), K("k3::S-Combined"), K("k3::S-Repeat")]
+             K("k3::S-Attribute"), K("k3::S-Attribute-quotes"), K("k3::S-Attribute-unquoted"), K("k3::S-Attribute-default-under-target"), K("k3::S-Attribute-boolean-interp"), K("k3::S-Define-nested-same"), K("k3::S-Repeat-indent"), K("k3::S-Repeat-comprehension"), K("k3::S-Attribute-dict"), K("k3::S-Attribute-dict-first"), K("k3::S-Literal"), K("k3::S-Combined"), K("k3::S-Repeat")]
 
 RESERVED = [K("k3::S-Repeat-reserved"), K("k3::S-Define-reserved"), K("k3::S-Define-econtext"),
             K("k3::S-Define-tuple-reserved"), K("k3::S-Define-tuple-reserved-first"),
@@ -399,13 +399,18 @@ PROPS = {
         "level_note": "Trusted: the axiom schemas for str/re builtins (conformance-tested each run), "
                       "CPython's re engine, the encoding of Python semantics in DESIGN.md 2.3. "
                       "Not decided: 'valid templates are never rejected'; message formatting. "
-                      "The statement parsers of tal.py (split_parts, parse_defines, parse_attributes) are covered "
+                      "tal.split_parts is under contract (loop invariant with a ghost index: every piece is cut out of "
+                      "the argument and starts at the argument's start or right behind one of its semicolons); the "
+                      "TEXT of the pieces and the other statement parsers (parse_defines, parse_attributes) are covered "
                       "by schemas for named error forms and by the bounded stand-ins B-SPLIT (texts and positions), "
                       "B-ERRPOS (erroneous templates by family) and B-REJECT (labelled bounded, not counted). "
                       "Known finding D26: offsets behind a character reference inside one statement value.",
         "units": TOKEN + RESERVED + [K("k3::S-Define-reserved-after-escape"), K("k3::S-Attributes-invalid-after-escape"),
                           K("k3::S-Define-reserved-after-entity"), U('bounded.units', 'split', 'B-SPLIT'),
                           U('bounded.units', 'errpos', 'B-ERRPOS'),
+                          # "a template without such an error is never rejected", for the forms of
+                          # attribute the parser distinguishes (the schema's `compiles` obligation)
+                          K("k3::S-Attribute-unquoted"), K("k3::S-Attribute-quotes"),
                           K("k3::S-Strict-rejects"), K("k3::S-Deferred-twice"), K("parser.py::match_tag"),
                           U('pyvc.frames', 'cook_error_frame', '_cook.error_frame'),
                           U('pyvc.regexlang', 'statement_unit', 'tal.statement_patterns'),
